@@ -8,5 +8,6 @@ pub mod exact;
 pub mod explore;
 pub mod model;
 pub mod refval;
+pub mod replay;
 pub mod report;
 pub mod snap;
